@@ -106,14 +106,16 @@ Proof. intros [ | | | ] H; try reflexivity. elim H; reflexivity. Qed.
 
 Notation negzero := (Binary.B754_zero 53 1024 true).
 
-(* next_float v > v strictly (possibly +inf), for every finite v except -0.0 *)
-Theorem next_float_gt : forall v, fin v -> v <> negzero -> fcmp v (next_float v) = Some Lt.
-Proof. intros v Fv Nz. destruct v as [s|s|s pl Hpl|s mx ex H]; try discriminate Fv.
-  - destruct s. elim Nz; reflexivity. vm_compute. reflexivity.
+(* next_float v > v strictly (possibly +inf), for every finite v (next_float(+-0) = 5e-324, since aed2bd1) *)
+Theorem next_float_gt : forall v, fin v -> fcmp v (next_float v) = Some Lt.
+Proof. intros v Fv. destruct v as [s|s|s pl Hpl|s mx ex H]; try discriminate Fv.
+  - destruct s; vm_compute; reflexivity.
   - unfold next_float. simpl fis_inf. simpl fis_nan. simpl andb. cbv iota.
-    assert (G: fge (Binary.B754_finite 53 1024 s mx ex H) c_zero = negb s).
-    { unfold fge. rewrite fcmp_SF, B2SF_c_zero. simpl. now destruct s. }
-    rewrite G. destruct (to_bits_finite s mx ex H) as (m & e & Eb & Hm & He & Hc). rewrite Eb.
+    assert (G: fgt (Binary.B754_finite 53 1024 s mx ex H) c_zero = negb s).
+    { unfold fgt. rewrite fcmp_SF, B2SF_c_zero. simpl. now destruct s. }
+    assert (G2: feq (Binary.B754_finite 53 1024 s mx ex H) c_zero = false).
+    { unfold feq. rewrite fcmp_SF, B2SF_c_zero. simpl. now destruct s. }
+    rewrite G, G2. destruct (to_bits_finite s mx ex H) as (m & e & Eb & Hm & He & Hc). rewrite Eb.
     rewrite fcmp_SF. simpl Binary.B2SF at 1. assert (P0: P52 = 4503599627370496) by reflexivity.
     destruct s; simpl negb; cbv iota.
     + (* negative: bits - 1 *)
@@ -177,9 +179,9 @@ Proof. intros a b H. rewrite fcmp_SF in H. apply nnan_SF. intros E. rewrite E in
 Lemma fcmp_lt_nnan_l : forall a b, fcmp a b = Some Lt -> nnan a.
 Proof. intros a b H. rewrite fcmp_SF in H. apply nnan_SF. intros E. rewrite E in H. discriminate. Qed.
 
-Corollary next_float_props : forall v, fin v -> v <> negzero ->
+Corollary next_float_props : forall v, fin v ->
   nnan (next_float v) /\ fle v (next_float v) = true /\ flt v (next_float v) = true.
-Proof. intros v F N. assert (H := next_float_gt v F N). split. eapply fcmp_lt_nnan_r; eauto.
+Proof. intros v F. assert (H := next_float_gt v F). split. eapply fcmp_lt_nnan_r; eauto.
   unfold fle, flt. now rewrite H. Qed.
 Corollary prev_float_props : forall v, fin v ->
   nnan (prev_float v) /\ fle (prev_float v) v = true /\ flt (prev_float v) v = true.
